@@ -146,7 +146,7 @@ func CapMP(f Family) Capability {
 func CapAS4(asn uint32) Capability {
 	return Capability{CapCodeAS4, binary.BigEndian.AppendUint32(nil, asn)}
 }
-func CapRouteRefresh() Capability { return Capability{CapCodeRouteRefresh, nil} }
+func CapRouteRefresh() Capability   { return Capability{CapCodeRouteRefresh, nil} }
 func CapRole(role uint8) Capability { return Capability{CapCodeRole, []byte{role}} }
 func CapAddPath(ts ...AddPathTuple) Capability {
 	var v []byte
